@@ -298,6 +298,19 @@ def run_check(spec, argv):
     replay_finding(rp, finding) -> (reproduced, detail), describe(finding), bounds(tier), OUTSIDE,
     NEED_WITNESSES, ASSUMPTIONS and optionally extra_checks(tier, seed, rp) -> dict."""
     PROP = spec.PROP
+    if '--replay' in argv:
+        # replay a recorded violation against the natively compiled crate of /repo's current working tree
+        path = argv[argv.index('--replay') + 1]
+        rec = json.load(open(path))
+        fj = rec['finding']
+        f = Finding(fj['what'], fj['input'], fj.get('detail'), fj.get('known'), fj.get('shape'))
+        rp = Replay()
+        try:
+            rep, detail = spec.replay_finding(rp, f)
+        finally:
+            rp.close()
+        print('%s property=%s %s' % ('REPRODUCED' if rep else 'NOT-REPRODUCED', PROP, json.dumps(detail, default=str)[:1500]))
+        return 1 if rep else 0
     tier, seed = tier_and_seed(argv)
     t0 = time.time()
     prog, mir_info = engine.load_program(deps=getattr(spec, 'DEPS', ()))
